@@ -238,6 +238,71 @@ pub fn run(seed: u64, n: u64, thorough: bool, corpus: &[String], dir: &str) {
         out.case(&line, &impl_line);
     }
 
+    // ---- the session's own split (split_transfer): sizes against the model, every piece against the encoder ----
+    for i in 0..n {
+        let m = ms[(i as usize) % ms.len()];
+        let mfb = m - 8;
+        let mut t = gen_transfer(&mut r);
+        // the session stamps the delivery-id afterwards: first transfers come without one
+        if t.delivery_tag.is_some() {
+            t.delivery_id = None;
+        }
+        let mut reserved = t.clone();
+        if reserved.delivery_tag.is_some() {
+            reserved.delivery_id = Some(u32::MAX);
+        }
+        let lf_single = serde_amqp::to_vec(&reserved).unwrap().len();
+        reserved.more = true;
+        let lf = serde_amqp::to_vec(&reserved).unwrap().len();
+        let lr = serde_amqp::to_vec(&clear_continuation(&t, true)).unwrap().len();
+        let k = r.below(4) as usize;
+        let delta = r.range(0, 80) as i64 - 40;
+        let len = if r.chance(1, 8) { r.below(3 * m as u64) as usize } else { ((k * mfb) as i64 + delta).max(0) as usize };
+        let payload = r.bytes(len);
+        let line = format!("ssplit {} {} {} {} {}", mfb, lf_single, lf, lr, len);
+        let res = std::panic::catch_unwind(std::panic::AssertUnwindSafe(|| {
+            fe2o3_amqp::verif::split_transfer_sizes(t.clone(), Bytes::from(payload.clone()), mfb)
+        }));
+        let impl_line = match &res {
+            Ok(Ok(pieces)) => {
+                out.count(&format!("ssplit_pieces_{}", pieces.len().min(5)));
+                if pieces.len() >= 2 {
+                    out.nontrivial(&line);
+                }
+                // nothing lost, fields on the first piece only, `more` on all but the last, and each piece is ONE frame for the encoder
+                let joined: Vec<u8> = pieces.iter().flat_map(|(_, p)| p.to_vec()).collect();
+                if joined != payload {
+                    out.violation("c06-ssplit-payload", "c06-ssplit-payload: the pieces do not add up to the payload", &line);
+                }
+                for (j, (pt, pp)) in pieces.iter().enumerate() {
+                    let last = j == pieces.len() - 1;
+                    if (j > 0 && (pt.delivery_tag.is_some() || pt.delivery_id.is_some())) || (!last && !pt.more) || (last && pt.more != t.more) {
+                        out.violation("c06-ssplit-fields", &format!("c06-ssplit-fields: piece {} of {} has tag/more fields wrong", j, pieces.len()), &line);
+                    }
+                    // as the session would send it: with the widest delivery-id on the first piece
+                    let mut stamped = pt.clone();
+                    if stamped.delivery_tag.is_some() {
+                        stamped.delivery_id = Some(u32::MAX);
+                    }
+                    let frame = Frame::new(0u16, FrameBody::Transfer { performative: stamped, payload: pp.clone() });
+                    match send_frame(m, frame) {
+                        Ok(w) => {
+                            let nfr = parse_wire(&w, usize::MAX).map(|f| f.len()).unwrap_or(0);
+                            if nfr != 1 {
+                                out.violation("c07-frame-not-numbered", &format!("c07-frame-not-numbered: piece {} ({} payload bytes) is written as {} frames: frames on the wire outnumber the transfer-ids", j, pp.len(), nfr), &line);
+                            }
+                        }
+                        Err(e) => out.violation("c06-send-error", &format!("c06-send-error: sending a piece failed: {}", e), &line),
+                    }
+                }
+                format!("OK {}", pieces.iter().map(|(_, p)| p.len().to_string()).collect::<Vec<_>>().join(","))
+            }
+            Ok(Err(e)) => format!("ERR {}", e),
+            Err(_) => "PANIC".to_string(),
+        };
+        out.case(&line, &impl_line);
+    }
+
     // ---- other performatives ---------------------------------------------------------
     for i in 0..(n / 4).max(8) {
         let m = *r.pick(&[512usize, 600, 1024]);
